@@ -284,19 +284,23 @@ func valueEq(a, b Value) bool {
 
 type modSet struct {
 	cells map[*Cell]bool
-	heap  map[string][]*Term // nil slice with key present = whole array; else rows
+	heap  map[string][]*Term    // rows havocked entirely
+	heap2 map[string][][2]*Term // (row, index) pairs of two-level heaps
 	whole map[string]bool
 	next  bool
 	alloc bool
 }
 
 func newModSet() *modSet {
-	return &modSet{cells: map[*Cell]bool{}, heap: map[string][]*Term{}, whole: map[string]bool{}}
+	return &modSet{cells: map[*Cell]bool{}, heap: map[string][]*Term{}, heap2: map[string][][2]*Term{}, whole: map[string]bool{}}
 }
 
 func (m *modSet) size() int {
 	n := len(m.cells) + len(m.whole)
 	for _, r := range m.heap {
+		n += len(r)
+	}
+	for _, r := range m.heap2 {
 		n += len(r)
 	}
 	if m.next {
@@ -390,7 +394,12 @@ func (x *exec) havoc(s *State, m *modSet, consts map[*Term]bool, tag string) *St
 		}
 		walk(v)
 	}
+	var mcells []*Cell
 	for cell := range m.cells {
+		mcells = append(mcells, cell)
+	}
+	sort.Slice(mcells, func(i, j int) bool { return mcells[i].ID < mcells[j].ID })
+	for _, cell := range mcells {
 		old := s.cells[cell]
 		// pointers held in cells with Go-side targets cannot be havocked soundly
 		if p, ok := old.(PtrV); ok && (p.Kind == PCell || p.Kind == PLeaf || p.Kind == PElem) {
@@ -405,13 +414,24 @@ func (x *exec) havoc(s *State, m *modSet, consts map[*Term]bool, tag string) *St
 		n.cells[cell] = v
 		note(v)
 	}
+	var wkeys []string
 	for key := range m.whole {
+		wkeys = append(wkeys, key)
+	}
+	sort.Strings(wkeys)
+	for _, key := range wkeys {
 		so := e.heapSorts[key]
 		h := c.Fresh(tag+".H:"+key, so)
 		consts[h] = true
 		n.heap[key] = h
 	}
-	for key, rows := range m.heap {
+	var rkeys []string
+	for key := range m.heap {
+		rkeys = append(rkeys, key)
+	}
+	sort.Strings(rkeys)
+	for _, key := range rkeys {
+		rows := m.heap[key]
 		if m.whole[key] {
 			continue
 		}
@@ -421,6 +441,36 @@ func (x *exec) havoc(s *State, m *modSet, consts map[*Term]bool, tag string) *St
 			f := c.Fresh(tag+".R:"+key, so.Elem)
 			consts[f] = true
 			h = c.Store(h, r, f)
+		}
+		n.heap[key] = h
+	}
+	var pkeys []string
+	for key := range m.heap2 {
+		pkeys = append(pkeys, key)
+	}
+	sort.Strings(pkeys)
+	for _, key := range pkeys {
+		if m.whole[key] {
+			continue
+		}
+		so := e.heapSorts[key]
+		h, ok := n.heap[key]
+		if !ok {
+			h = e.heapGet(s, key, so)
+		}
+		for _, pr := range m.heap2[key] {
+			whole := false
+			for _, r := range m.heap[key] {
+				if r == pr[0] {
+					whole = true
+				}
+			}
+			if whole {
+				continue
+			}
+			f := c.Fresh(tag+".E:"+key, so.Elem.Elem)
+			consts[f] = true
+			h = c.Store(h, pr[0], c.Store(c.Select(h, pr[0]), pr[1], f))
 		}
 		n.heap[key] = h
 	}
@@ -470,7 +520,8 @@ func (x *exec) enterLoop(li *loopInfo, s *State) *State {
 		before := m.size()
 		memo := map[*Term]bool{}
 		for _, b := range backs {
-			for cell, v := range b.cells {
+			for _, cell := range sortedCells(b.cells) {
+				v := b.cells[cell]
 				if !valueEq(v, hs.cells[cell]) {
 					// variables declared inside the body (or inside inlined callees)
 					// are re-initialised on every iteration: only those that exist
@@ -480,7 +531,8 @@ func (x *exec) enterLoop(li *loopInfo, s *State) *State {
 					}
 				}
 			}
-			for key, t := range b.heap {
+			for _, key := range sortedStateKeys(b.heap) {
+				t := b.heap[key]
 				so := e.heapSorts[key]
 				base := e.heapGet(hs, key, so)
 				if t == base || m.whole[key] {
@@ -512,6 +564,34 @@ func (x *exec) enterLoop(li *loopInfo, s *State) *State {
 					}
 					if ok {
 						for _, r := range rows {
+							// two-level heaps: try to narrow the row to the elements written
+							if so.Elem.Kind == KArray {
+								inner := c.Select(t, r)
+								innerBase := c.Select(base, r)
+								var idxs []*Term
+								if rowsBetween(inner, innerBase, &idxs, 0) {
+									fine := true
+									for _, ix := range idxs {
+										if mentions(ix, consts, memo) || mentions(ix, newFresh, fm) {
+											fine = false
+										}
+									}
+									if fine {
+										for _, ix := range idxs {
+											dup := false
+											for _, q := range m.heap2[key] {
+												if q[0] == r && q[1] == ix {
+													dup = true
+												}
+											}
+											if !dup {
+												m.heap2[key] = append(m.heap2[key], [2]*Term{r, ix})
+											}
+										}
+										continue
+									}
+								}
+							}
 							dup := false
 							for _, q := range m.heap[key] {
 								if q == r {
@@ -572,6 +652,11 @@ func (x *exec) enterLoop(li *loopInfo, s *State) *State {
 		}
 		for key := range m.heap {
 			if !m.whole[key] {
+				li.frameKeys = append(li.frameKeys, key)
+			}
+		}
+		for key := range m.heap2 {
+			if !m.whole[key] && len(m.heap[key]) == 0 {
 				li.frameKeys = append(li.frameKeys, key)
 			}
 		}
